@@ -126,6 +126,17 @@ CLAIMED = {
             "only when accepted and within max-segments, requests only toward peers that can receive segments, windows stay in 1..127 and "
             "within the proposal, and the outcome (ack or abort) is the one the limits dictate.",
             "Trusted: as C04; the application feeds I-Am announcements into DeviceInfoCache.iam_device_info (bacpypes leaves that to the application)."),
+    "C16": ("6/C16", SCN + "; differential against a reference subscription table with last-reported value and burst accounting (clauses 13.1 / 13.14)",
+            "A COV server stack with one monitored object (integer value with symbolic increment and values, analog value and pulse "
+            "converter on dyadic values, binary and multi-state values) and 1..2 (3) subscriber stacks; timelines of 3 (5) steps with "
+            "symbolic opcodes over {subscribe / renew with symbolic confirmed flag and lifetime 0..120 or absent, cancel, write value, write "
+            "status flags, two writes in one instant, advance the clock by a symbolic whole number of seconds 0..130}: ack and one initial "
+            "notification, exactly one notification per qualifying change per live subscription of the requested kind with the current "
+            "values and the remaining lifetime, none after cancel or expiry, renewals replace and re-time, and activeCovSubscriptions (also "
+            "read over the wire) lists exactly the live subscriptions with a truthful time remaining.",
+            "Trusted: as C04 plus vf/ref/C16_cov.py; integer clock and a symbolic-preserving int() for cov.py's time-remaining computation; "
+            "transaction timers set far away (no frame is lost); at the expiry second either behaviour is accepted; with several subscribers "
+            "a change that qualifies only under the per-object or only under the per-subscriber reading may or may not be notified."),
     "C17": ("6/C17", SX + "; differential against a clause 19.2 reference (16-slot array, minimum on/off timer model)",
             "All 20 commandable classes (registered subclasses): command plans with symbolic priorities (absent, any integer -300..300 incl. "
             "0 and 17+), values and relinquishes through WriteProperty('presentValue', v, priority) and bare element writes; after every "
